@@ -27,6 +27,7 @@ NLEdbs ==
     {A("l", <<N1, N2>>), A("l", <<N2, N3>>), A("l", <<N3, N4>>), A("t", <<N1, N2, N3>>), A("t", <<N1, N3, N4>>)},
     {A("l", <<N1, N1>>), A("l", <<N2, N3>>), A("t", <<N1, N1, N2>>), A("t", <<N1, N2, N3>>), A("t", <<N2, N1, N4>>)},
     \* base facts stated for predicates that rules also define (the recursion is seeded by facts of s and r themselves)
-    {A("l", <<N1, N2>>), A("l", <<N2, N3>>), A("s", <<N4>>), A("t", <<N1, N2, N3>>), A("t", <<N4, N1, N2>>), A("l", <<N4, N1>>)} }
+    {A("l", <<N1, N2>>), A("l", <<N2, N3>>), A("s", <<N4>>), A("t", <<N1, N2, N3>>), A("t", <<N4, N1, N2>>), A("l", <<N4, N1>>)},
+    {A("l", <<N1, N2>>), A("l", <<N2, N3>>), A("r", <<N4, N2>>), A("r", <<N4, N4>>), A("t", <<N1, N2, N3>>)} }
 KeepSafe(r) == Safe(r)
 =============================================================================
